@@ -920,7 +920,12 @@ class CallMixin:
         fk = self.field_kind(obj.kind.target.cls, f)
         a = z3.Int("fs_a")
         f0, f1 = self.H.fld_arr(old, f, fk.sort()), self.H.fld_arr(st, f, fk.sort())
-        return V(BOOL, self.forall_p([a], z3.Implies(z3.And(a >= 1, a < old.top, f0[a] != 0), f1[a] == f0[a]), [f1[a]]))
+        # only objects of the class that declares the field (the untyped field arrays have entries for every address)
+        base = obj.kind.target.cls
+        ids = [self.class_id(c_) for c_ in self.reg.classes if self.reg.is_subclass(c_, base)] or [self.class_id(base)]
+        tag = self.cls_arr(old)[a]
+        is_inst = z3.Or(*[tag == i_ for i_ in ids])
+        return V(BOOL, self.forall_p([a], z3.Implies(z3.And(a >= 1, a < old.top, is_inst, f0[a] != 0), f1[a] == f0[a]), [f1[a]]))
 
     def bi_avail(self, args, kw, st, node):
         """spec: number of items iterating the argument would yield now (0 for an exhausted one-shot iterator)"""
